@@ -167,6 +167,17 @@ impl J {
     }
 }
 
+/// writes a set of 64-bit hashes (little endian) for the driver to unite across shards
+pub fn write_hashes<'a>(path: Option<&str>, hashes: impl Iterator<Item = &'a u64>) {
+    if let Some(p) = path {
+        let mut buf = Vec::new();
+        for h in hashes {
+            buf.extend_from_slice(&h.to_le_bytes());
+        }
+        let _ = std::fs::write(p, buf);
+    }
+}
+
 // ---------------------------------------------------------------- args
 
 pub struct Args {
